@@ -852,19 +852,54 @@ Lemma list_eqb_refl l : list_eqb l l = true.
 Proof. induction l as [|x l IH]; cbn; [reflexivity|]. rewrite Z.eqb_refl, IH. reflexivity. Qed.
 
 (* the invariant of pass B *)
+(* a cached resource has no running (or startable) expiry timer *)
+Definition WS (r : rstate) : Prop := cache r <> -1 -> ws r <> 0 /\ ws r <> 1.
+Lemma rstep_WS ign r e : WS r -> WS (fst (rstep ign r e)).
+Proof.
+  unfold WS, rstep, recvd. intro H. destruct (rw r); [exact H|].
+  destruct e; cbn;
+    repeat match goal with |- context [if ?b then _ else _] => destruct b eqn:? end; cbn;
+    repeat match goal with
+    | H : (_ =? _) = true |- _ => apply Z.eqb_eq in H
+    | H : (_ =? _) = false |- _ => apply Z.eqb_neq in H
+    | H : (_ || _) = true |- _ => apply orb_true_iff in H
+    | H : (_ || _) = false |- _ => apply orb_false_iff in H; destruct H
+    end; intros; try lia; try tauto; try (specialize (H ltac:(assumption)); lia).
+Qed.
+Lemma rsteps_WS ign : forall es r, WS r -> WS (fst (rsteps ign r es)).
+Proof.
+  induction es as [|e es IH]; intros r H; [exact H|]. cbn [rsteps].
+  pose proof (rstep_WS ign r e H) as H1. destruct (rstep ign r e) as [r1 c1]. cbn [fst] in H1.
+  pose proof (IH r1 H1) as H2. destruct (rsteps ign r1 es) as [r2 c2]. exact H2.
+Qed.
+Lemma send_WS ign s t : (forall k, WS (res s k)) -> forall k, WS (res (fst (send ign s t)) k).
+Proof.
+  intros H k. unfold send. destruct (sender s =? 1).
+  - cbn [fst res apply_events]. apply rsteps_WS. apply H.
+  - destruct (sender s =? 2); cbn; apply H.
+Qed.
+Lemma send_or_WS ign s1 t (c : bool) s2 rq : (forall k, WS (res s1 k)) ->
+  (if c then send ign s1 t else (s1, [])) = (s2, rq) -> forall k, WS (res s2 k).
+Proof.
+  intros H E k. destruct c; [|inversion E; subst; apply H].
+  pose proof (send_WS ign s1 t H k) as Hk. rewrite E in Hk. exact Hk.
+Qed.
+
 Record JB (s : st) (m : monB) : Prop := mkJB {
   jb_a : exists mA, JA s mA /\ forall w, b_val m w = a_val mA w;
   jb_wm : forall w, b_wm m w = wm s w;
   jb_live : b_live m = live s;
   jb_msg : b_msg m = msgrecv s;
   jb_rw : forall k w, k <> -1 -> mem w (rw (res s k)) = true -> In w all_watchers /\ wm s w = k;
-  jb_key : forall w, wm s w = -1 \/ 0 <= wm s w
+  jb_key : forall w, wm s w = -1 \/ 0 <= wm s w;
+  jb_ws : forall k, WS (res s k)
 }.
 
 Lemma JB_init : JB init monB_init.
 Proof.
   constructor; cbn; intros; try reflexivity; try discriminate; try tauto.
-  exists monA_init. split; [apply JA_init|reflexivity].
+  - exists monA_init. split; [apply JA_init|reflexivity].
+  - unfold WS. cbn. intro H. contradiction.
 Qed.
 
 Lemma JB_val s m w : JB s m -> b_val m w = if wm s w =? -1 then -1 else cache (res s (wm s w)).
@@ -929,10 +964,11 @@ Lemma stepB_from ign s m i a s' ap cbs only rq :
   (forall w, b_wm (opB m a ap) w = wm s' w) -> b_live (opB m a ap) = live s' -> b_msg (opB m a ap) = msgrecv s' ->
   (forall k w, k <> -1 -> mem w (rw (res s' k)) = true -> In w all_watchers /\ wm s' w = k) ->
   (forall w, wm s' w = -1 \/ 0 <= wm s' w) ->
+  (forall k, WS (res s' k)) ->
   (forall m', JB s' m' -> all_true (map (req_B i m') rq) = true) ->
   stepB_ok ign s m i a.
 Proof.
-  intros HJ Hwf Hs Hjust Hwm Hlive Hmsg Hrw Hkey Hreq.
+  intros HJ Hwf Hs Hjust Hwm Hlive Hmsg Hrw Hkey Hws Hreq.
   destruct (jb_a _ _ HJ) as (mA & HA & Hv).
   destruct (stepA_all ign s mA i a HA Hwf) as (sA & apA & wsA & rqA & mA' & clA & HsA & HlenA & HwA & _ & HJA').
   rewrite Hs in HsA. unfold mk_out in HsA. inversion HsA as [[E1 E2 E3 E4]]. clear HsA.
@@ -947,7 +983,8 @@ Proof.
     - rewrite Sl. exact Hlive.
     - rewrite Sm. exact Hmsg.
     - exact Hrw.
-    - exact Hkey. }
+    - exact Hkey.
+    - exact Hws. }
   exists s', ap, (watcher_words s' cbs only), rq, mB', clB.
   split; [exact Hs|]. split; [apply ww_length|]. split; [exact EB|]. split; [|split; [apply Hreq; exact HJB|exact HJB]].
   pose proof (words_B_map ign i m a ap (wcbs s' cbs only) all_watchers (opB m a ap)) as Hm.
@@ -965,6 +1002,7 @@ Proof.
   - apply (jb_msg _ _ HJ).
   - apply (jb_rw _ _ HJ).
   - apply (jb_key _ _ HJ).
+  - apply (jb_ws _ _ HJ).
   - intros; reflexivity.
 Qed.
 
@@ -1000,6 +1038,7 @@ Proof.
   - intros k w Hk Hmem. rewrite Hwm. rewrite Hres in Hmem. unfold apply_events in Hmem. cbn [fst] in Hmem.
     rewrite rsteps_rw in Hmem. apply (jb_rw _ _ HJ k w Hk Hmem).
   - intro w. rewrite Hwm. apply (jb_key _ _ HJ).
+  - intro k. rewrite Hres. unfold apply_events. cbn [fst]. apply rsteps_WS. apply (jb_ws _ _ HJ).
 Qed.
 
 Lemma stepB_fail ign s m i : JB s m -> stepB_ok ign s m i AFail.
@@ -1039,6 +1078,9 @@ Proof.
   - cbn [opB negb b_msg msgrecv]. apply (jb_msg _ _ HJ).
 Qed.
 
+Lemma rsteps_single ign r e : snd (rsteps ign r [e]) = snd (rstep ign r e).
+Proof. cbn [rsteps]. destruct (rstep ign r e) as [r1 c1]. cbn. apply app_nil_r. Qed.
+
 Lemma stepB_expire ign s m i : JB s m -> stepB_ok ign s m i AExpire.
 Proof.
   intro HJ. set (ev := fun _ : Z => [EExpire]).
@@ -1046,16 +1088,17 @@ Proof.
            (mkS (fst (apply_events ign s ev)) (wm s) (has s) (live s) (sender s) (msgrecv s)) []);
     try reflexivity; try exact HJ; try exact I.
   - intros w Hw. unfold justified. cbn [negb]. rewrite (jb_wm _ _ HJ), Hw. reflexivity.
-  - intros w Hw Hr. unfold justified. cbn [negb]. rewrite (jb_wm _ _ HJ).
-    assert (E: (wm s w =? -1) = false) by (apply Z.eqb_neq; exact Hw). rewrite E.
-    unfold ev. cbn [rsteps]. rewrite (expiry _ ign Hr). destruct (ws (res s (wm s w)) =? 1); reflexivity.
+  - intros w Hw Hr. unfold justified. cbn [negb]. rewrite (jb_wm _ _ HJ), (JB_val s m w HJ).
+    assert (E: (wm s w =? -1) = false) by (apply Z.eqb_neq; exact Hw). rewrite E. cbn [orb].
+    unfold ev. rewrite rsteps_single, (expiry _ ign Hr).
+    destruct (cache (res s (wm s w)) =? -1) eqn:Ec; cbn [negb].
+    + destruct (ws (res s (wm s w)) =? 1); reflexivity.
+    + apply Z.eqb_neq in Ec. destruct (jb_ws _ _ HJ (wm s w) Ec) as [_ H1].
+      assert (E1: (ws (res s (wm s w)) =? 1) = false) by (apply Z.eqb_neq; exact H1). rewrite E1. reflexivity.
   - intro w. cbn [opB negb]. apply (jb_wm _ _ HJ).
   - cbn [opB negb live]. apply (jb_live _ _ HJ).
   - cbn [opB negb msgrecv]. apply (jb_msg _ _ HJ).
 Qed.
-
-Lemma rsteps_single ign r e : snd (rsteps ign r [e]) = snd (rstep ign r e).
-Proof. cbn [rsteps]. destruct (rstep ign r e) as [r1 c1]. cbn. apply app_nil_r. Qed.
 
 Lemma stepB_resp ign s m i t v n rs : JB s m -> 0 <= t -> Forall (fun x => 0 <= snd x) rs ->
   stepB_ok ign s m i (AResp t v n rs).
@@ -1138,6 +1181,7 @@ Proof.
   - cbn [opB negb b_msg]. symmetry; exact M.
   - intros k w Hk Hm. rewrite W. destruct (K k) as (C1 & _). rewrite C1 in Hm. apply (jb_rw _ _ HJ k w Hk Hm).
   - intro w. rewrite W. apply (jb_key _ _ HJ).
+  - eapply (send_or_WS ign s1 1); [|exact E1]. eapply (send_or_WS ign s0 0); [|exact E0]. apply (jb_ws _ _ HJ).
   - intros m' HJ'. rewrite map_app. unfold all_true. rewrite forallb_app. apply andb_true_intro. split.
     + destruct Q0 as [->| ->]; [reflexivity|]. cbn [map forallb]. 
       rewrite (req_ok_core i s0 s2 m' 0 HJ'); [reflexivity|lia|]. intro k. destruct (K k) as (C1 & _). exact C1.
@@ -1258,6 +1302,9 @@ Proof.
   - cbn [opB negb b_msg]. rewrite M. apply (jb_msg _ _ HJ).
   - intros k' x Hk' Hm. rewrite W. destruct (K k') as (C1 & _). rewrite C1 in Hm. apply (Hrw1 k' x Hk' Hm).
   - intro x. rewrite W. unfold s1. cbn [wm]. unfold updz. destruct (x =? w); [right; unfold k; lia|apply (jb_key _ _ HJ)].
+  - eapply (send_or_WS ign s1 t); [|exact E]. intro x. unfold s1. cbn [res]. unfold updr.
+    destruct (x =? k); [|apply (jb_ws _ _ HJ)]. unfold r'. destruct fresh; [unfold WS; cbn; intro; contradiction|].
+    pose proof (jb_ws _ _ HJ k) as Hw0. unfold WS in *. cbn. exact Hw0.
   - intros m' HJ'. destruct Q as [->| ->]; [reflexivity|]. cbn [map all_true forallb].
     rewrite (req_ok_core i s1 s2 m' t HJ' Ht); [reflexivity|]. intro x. destruct (K x) as (C1 & _). exact C1.
 Qed.
@@ -1299,6 +1346,9 @@ Proof.
       destruct (x =? w) eqn:Exw; [|exact B]. apply Z.eqb_eq in Exw. subst x. exfalso.
       apply Z.eqb_neq in Ek. apply Ek. symmetry. exact B.
   - intro x. rewrite W. unfold s1. cbn [wm]. unfold updz. destruct (x =? w); [left; reflexivity|apply (jb_key _ _ HJ)].
+  - eapply (send_or_WS ign s1 (ktype k)); [|exact E]. intro x. unfold s1. cbn [res]. unfold updr.
+    destruct (x =? k); [|apply (jb_ws _ _ HJ)]. unfold r'. destruct (negb (nonempty l)); [unfold WS; cbn; intro; contradiction|].
+    pose proof (jb_ws _ _ HJ k) as Hw0. unfold WS in *. cbn. exact Hw0.
   - intros m' HJ'. destruct Q as [->| ->]; [reflexivity|]. cbn [map all_true forallb].
     rewrite (req_ok_core i s1 s2 m' (ktype k) HJ'); [reflexivity| |].
     + unfold ktype. apply Z.div_pos; lia.
